@@ -74,3 +74,62 @@ def short_copy_sites(f):
         ok = bool(inits) and bool(nexts) and must_between(f, nexts, inits, [(b, T)])[0]
         out.append((b, arr, ok))
     return out
+
+
+def unsorted_dedup_sites(prog, select):
+    """[(fn, block, sorted_before)] for every `Vec::dedup*` call in the selected functions: `dedup` removes ADJACENT duplicates only, so it
+    computes the set of distinct values (and `last()` the maximum) only for a vector that was sorted — on every path from the entry a sort
+    of the same vector precedes it, or the vector was collected from an ordered collection"""
+    from ..flow import flow
+    out = []
+    for f in prog.fns.values():
+        if not f.blocks or not select(f):
+            continue
+        g = None
+        for b, t in f.calls():
+            cn = callee_name(t) or ""
+            if not cn.endswith(("Vec::dedup", "Vec::dedup_by_key", "Vec::dedup_by")) or not t["args"]:
+                continue
+            g = g or flow(f)
+            v = _chase(f, op_local(t["args"][0]), lambda l: f.local_ty(l).replace(" ", "").startswith("alloc::vec::Vec<"))
+            sorts = []
+            for sb, stt in f.calls():
+                scn = callee_name(stt) or ""
+                if scn.endswith(("slice::sort", "slice::sort_unstable", "slice::sort_by", "slice::sort_by_key", "slice::sort_unstable_by",
+                                 "slice::sort_unstable_by_key")) and stt["args"]:
+                    w = g.walk(ops=stt["args"][:1], at=(sb, T), through=lambda tt: (callee_name(tt) or "").endswith(("Deref::deref", "DerefMut::deref_mut")))
+                    sl = _chase(f, op_local(stt["args"][0]), lambda l: l == v)
+                    refs = {n for n in w}
+                    if sl == v or v in {x for x in _locals_in_walk(f, g, stt["args"][0], sb)}:
+                        sorts.append((sb, T))
+            ordered_src = False
+            if v is not None:
+                w = g.walk(ops=[{"copy": {"l": v}}], at=(b, T), through=lambda tt: True)
+                ordered_src = any(n.endswith(("BTreeSet::into_iter", "BTreeSet::iter", "BTreeMap::keys", "BTreeMap::into_keys", "BTreeMap::values")) for n in g.callee_names_in(w))
+            ok = ordered_src or (bool(sorts) and must_between(f, None, sorts, [(b, T)])[0])
+            out.append((f, b, ok))
+    return out
+
+
+def _locals_in_walk(f, g, op, b):
+    """locals reachable from op through borrows and derefs (which vector a `&mut [T]` argument views)"""
+    seen, work = set(), [op_local(op)]
+    while work:
+        l = work.pop()
+        if l is None or l in seen:
+            continue
+        seen.add(l)
+        d = single_def(f, l)
+        if d is None:
+            continue
+        if d[1] == "T":
+            cn = callee_name(d[2]) or ""
+            if cn.endswith(("Deref::deref", "DerefMut::deref_mut", "Vec::as_mut_slice", "Vec::as_slice")) and d[2]["args"]:
+                work.append(op_local(d[2]["args"][0]))
+            continue
+        rv = d[2]["rv"]
+        if rv["k"] == "ref":
+            work.append(rv["p"]["l"])
+        elif rv["k"] in ("use", "cast"):
+            work.append(op_local(rv["a"]))
+    return seen
